@@ -71,6 +71,7 @@ def sde_case(tid, coef, x0, mu4, dts4, dW4, dL4, coupled, mu4c=None, dW4c=None, 
             xs_again = [[float(x0) + v for v in val_again]]
             eps_u = exact_int(proc.epsilon / U)
             h_u = exact_int(grid.h / U)
+            eps_drv_u = h_u
         else:
             dy16c = [mu4c * dts4[i] + 4 * (dW4c[i] + dL4c[i]) for i in range(n)]
             hdr["dy16"] = [dy16, dy16c]
@@ -88,6 +89,8 @@ def sde_case(tid, coef, x0, mu4, dts4, dW4, dL4, coupled, mu4c=None, dW4c=None, 
             xs = [[float(x0) + v for v in val[0][0]], [float(x0) + v for v in val[1][0]]]
             eps_u = exact_int(cs.epsilon / U)
             h_u = exact_int(cs.driver_coupling_process.grid.h / U)
+            # the maximum time step the DRIVER coupling actually simulates with at this level
+            eps_drv_u = exact_int(cs.driver_coupling_process._path_coupling_simulation.epsilon / U)
         # scaled integers: Constant: X * 16 ; DiagX: X_i * 16^i
         rec = []
         for comp in xs:
@@ -95,7 +98,7 @@ def sde_case(tid, coef, x0, mu4, dts4, dW4, dL4, coupled, mu4c=None, dW4c=None, 
                 rec.append([exact_int(x * 16) for x in comp])
             else:
                 rec.append([exact_int(x * 16 ** i, tol=1e-9) for i, x in enumerate(comp)])
-        r = {"e": "Euler", "x": rec, "times4": [exact_int(t * 4) for t in np.asarray(path.times())], "eps_u": eps_u, "h_u": h_u}
+        r = {"e": "Euler", "x": rec, "times4": [exact_int(t * 4) for t in np.asarray(path.times())], "eps_u": eps_u, "h_u": h_u, "eps_drv_u": eps_drv_u}
         r["bad"] = count_bad(r)
         ev.append(r)
         if not coupled:
@@ -163,6 +166,7 @@ def sde_case_2d(tid, coef, x0s, mu4, dts4, dW4, dL4, coupled, mu4c=None, dW4c=No
             val = np.atleast_2d(path.value())
             xs = [[float(x0s[k]) + v for v in val[k]] for k in range(m)]
             eps_u, h_u = exact_int(proc.epsilon / U), exact_int(grid.h / U)
+            eps_drv_u = h_u
         else:
             effc = rows_of(dy(mu4c, dW4c, dL4c))
             hdr["dy16"] = eff + effc
@@ -179,18 +183,62 @@ def sde_case_2d(tid, coef, x0s, mu4, dts4, dW4, dL4, coupled, mu4c=None, dW4c=No
             val = np.asarray(path.value())          # (2, m, n + 1)
             xs = [[float(x0s[k]) + v for v in val[c][k]] for c in range(2) for k in range(m)]
             eps_u, h_u = exact_int(cs.epsilon / U), exact_int(cs.driver_coupling_process.grid.h / U)
+            eps_drv_u = exact_int(cs.driver_coupling_process._path_coupling_simulation.epsilon / U)
         rec = []
         for comp in xs:
             if coef[0] == "const":
                 rec.append([exact_int(x * 16) for x in comp])
             else:
                 rec.append([exact_int(x * 16 ** i, tol=1e-9) for i, x in enumerate(comp)])
-        r = {"e": "Euler", "x": rec, "times4": [exact_int(t * 4) for t in np.asarray(path.times())], "eps_u": eps_u, "h_u": h_u}
+        r = {"e": "Euler", "x": rec, "times4": [exact_int(t * 4) for t in np.asarray(path.times())], "eps_u": eps_u, "h_u": h_u, "eps_drv_u": eps_drv_u}
         r["bad"] = count_bad(r)
         ev.append(r)
     except Exception as ex:
         import traceback
         ev.append({"e": "Raise", "what": type(ex).__name__ + ": " + str(ex)[:100], "tb": traceback.format_exc()[-500:]})
+    return {"tid": tid, "hdr": hdr, "ev": ev}
+
+
+def libor_case(tid, x0, tenors4, sig8, zz, mu4, dts4, dY4, rng):
+    """the Levy Libor model with a one-dimensional driver: rates x0, tenors in quarters, volatilities in eighths;
+    scripted driver path (time steps dts4 quarters, increments dY4 quarters, chain drift mu4 / 4); zz given"""
+    from fractions import Fraction
+    from rpylib.distribution.sampling import SamplingMethod
+    from rpylib.model.levydrivensde.levylibormodel import LevyLiborModel
+    from rpylib.montecarlo.path import StochasticJumpPath
+    from rpylib.process.markovchain.markovchainsde import MarkovChainLevyLiborModel
+    from harness.encode import ranks
+    n = len(dts4)
+    times = np.concatenate(([0.0], np.cumsum(dts4) / 4.0))
+    fr = lambda a, b: [Fraction(a, b).numerator, Fraction(a, b).denominator]
+    hdr = {"kind": "libor", "x0": [fr(int(v * 4), 4) for v in x0], "tenors": [fr(t, 4) for t in tenors4],
+           "deltas": [fr(b - a, 4) for a, b in zip(tenors4, tenors4[1:])], "sig": [fr(v, 8) for v in sig8], "zz": fr(int(zz * 4), 4),
+           "mu": fr(mu4, 4), "dt1": fr(dts4[0], 4), "dY1": fr(dY4[0], 4), "times4": [int(v) for v in np.cumsum([0] + dts4)]}
+    ev = []
+    try:
+        atoms = [(k, 1) for k in range(-63, 64, 2)]
+        driver = atomic.AtomLevyModel(atoms, sigma=0.0, bg_index=1.0)
+        model = LevyLiborModel(libor_rates=np.array([float(v) for v in x0]), tenors=[t / 4.0 for t in tenors4],
+                               sigma=np.array([[v / 8.0] for v in sig8]), driver=driver)
+        proc = MarkovChainLevyLiborModel(model=model, method=SamplingMethod.BINARYSEARCHTREE, grid=make_grid())
+        proc._integral_zz = lambda: np.array([[float(zz)]])
+        proc.initialisation(product_for_init())
+        jump = np.concatenate(([0.0], np.cumsum(dY4) / 4.0))
+        proc.markov_chain.simulate_one_path = lambda: StochasticJumpPath(times, np.zeros(n + 1), jump)
+        proc.markov_chain.process_drift = lambda: mu4 / 4.0
+        path = proc.simulate_one_path()
+        val = np.atleast_2d(path.value())
+        xs = [[float(x0[k]) + float(v) for v in val[k]] for k in range(len(x0))]
+        first = []
+        for k in range(len(x0)):
+            f = Fraction(xs[k][1]).limit_denominator(1 << 20)
+            first.append([f.numerator, f.denominator] if abs(float(f) - xs[k][1]) < 1e-12 else [0, 0])
+        flat = [v for row in xs for v in row]
+        rk = ranks(flat)
+        ev.append({"e": "Libor", "first": first, "xr": [rk[k * (n + 1):(k + 1) * (n + 1)] for k in range(len(x0))]})
+    except Exception as ex:
+        import traceback
+        ev.append({"e": "Raise", "what": type(ex).__name__ + ": " + str(ex)[:100], "tb": traceback.format_exc()[-400:]})
     return {"tid": tid, "hdr": hdr, "ev": ev}
 
 
@@ -261,6 +309,16 @@ def main():
                 x0s = [rng.choice([1, 2, 3]), rng.choice([1, 2])]
                 traces.append(sde_case_2d(f"s{len(traces)}", coef, x0s, mu(), dts4, two(), two(), False))
                 traces.append(sde_case_2d(f"s{len(traces)}", coef, x0s, mu(), dts4, two(), two(), True, mu4c=mu(), dW4c=two(), dL4c=two()))
+    # the Levy Libor model: first Euler step exact, fixed rates frozen
+    for rep in range(6 if quick else 30):
+        m = rng.choice([2, 3, 3])
+        tenors4 = [1, 2, 3, 4][:m + 1]
+        x0 = [rng.choice([0.25, 0.5, 1.0]) for _ in range(m)]
+        sig8 = [rng.choice([1, 2, 4]) for _ in range(m)]
+        n = rng.choice([3, 4, 5])
+        dts4 = [1] * n if rep % 2 == 0 else [rng.choice([1, 1, 2]) for _ in range(n)]
+        dY4 = [rng.choice(incs) for _ in range(n)]
+        traces.append(libor_case(f"s{len(traces)}", x0, tenors4, sig8, rng.choice([1.0, 0.5, 2.0]), rng.choice([0, 1, 2]), dts4, dY4, rng))
     for t in df_cases():
         t["tid"] = f"s{len(traces)}"
         traces.append(t)
